@@ -13,8 +13,13 @@ import PoxModel.Proofs.Addr.Spec
 import PoxModel.Proofs.Addr.Parse6
 import PoxModel.Proofs.Addr.Parse4
 import PoxModel.Proofs.Addr.EthSpec
+import PoxModel.Proofs.Addr.Guard6
+import PoxModel.Proofs.Addr.Strict6
+import PoxModel.Proofs.Addr.StrictEth
+import PoxModel.Proofs.Addr.StrictCidr
+import PoxModel.Proofs.Addr.StrictCidr6
 /-! Helper lemmas for C16 (address types), split by topic under `Proofs/Addr/`:
 `Mask` (netmask loop, membership), `IP4` (byte orders), `Text` (digits, `int()`, split/join/count), `Runs` (zero-run choice,
 checked on all 2^8 patterns), `IP6`/`IP6RT` (IPv6 print→parse), `Dpid`, `Canon` (RFC 5952 shape, mapped addresses, IPv6
 masks), `Cidr` (`parse_cidr` text forms), `Order` (byte-wise order), `Eth` (Ethernet text forms), `Spec` (RFC 4291 denotation, Ethernet reference definition), `Parse6` (parser = denotation on every valid IPv6 text),
-`Parse4` (canonical dotted quads, classful inference), `EthSpec` (EthAddr text = reference definition).  Core only. -/
+`Parse4` (canonical dotted quads, classful inference), `EthSpec` (EthAddr text = reference definition).  `Guard6` / `Strict6` / `StrictEth` / `StrictCidr` / `StrictCidr6` (the repaired variants of fixes/C16_*.diff: accept ⇔ well-formed).  Core only. -/
